@@ -93,7 +93,9 @@ def gen_cases(rng, tier, scale):
         cases.append({'line': f'{grp}p ' + ' ; '.join(ops), 'kind': 'alone', 'grp': grp, 'tpl': body, 'tags': ['alone']})
     # the indented call as the first thing the template writes, p beginning with a construct that writes through another
     # frame (a nested partial, a block, an expression) — on every run, through every entry point
-    FIRST = [{'p': '  {{one}}\nx\n'}, {'p': '{{#if t}}\n  {{one}}\n{{/if}}\nx\n'}, {'p': '{{#each l}}\n\t{{one}}!\n{{/each}}\n'}, {'p': '{{! c }}\n  {{{ml}}}\n'},
+    FIRST = [{'p': 'x{{#if t}}{{> q1}}{{/if}}rest\n', 'q1': 'Q\n'},  {'p': 'x{{#with o}}{{> q1}}{{/with}}r\n', 'q1': 'Q\n'},
+             {'p': 'x{{> w}}rest\n', 'w': '{{> q1}}', 'q1': 'Q\n'}, {'p': '{{one}}{{#with o}}{{> q1}}{{/with}}z\n', 'q1': 'a\nb\n'},
+             {'p': '  {{one}}\nx\n'}, {'p': '{{#if t}}\n  {{one}}\n{{/if}}\nx\n'}, {'p': '{{#each l}}\n\t{{one}}!\n{{/each}}\n'}, {'p': '{{! c }}\n  {{{ml}}}\n'},
              {'p': '{{> q1}}\n', 'q1': '{{#if t}}\n   {{one}} {{e}}\n{{else}}\n{{/if}}\n'}, {'p': ' {{#if t}}a{{/if}}\n  {{#with o}}{{one}}{{/with}}\n'},
              {'p': '{{> q1}}\nx\n', 'q1': 'after\n'}, {'p': '{{> q1}}\nx\n', 'q1': '{{#each l0}}x{{/each}}{{e}}after\n'},
              {'p': '{{#if t}}\na\nb\n{{/if}}\nx\n'}, {'p': '{{one}} tail\nx\n'}, {'p': '{{> q1}}', 'q1': '{{> q2}}\ny\n', 'q2': 'deep\n'},
